@@ -49,7 +49,7 @@ func init() {
 func renderValues(class string) []any {
 	switch class {
 	case "str_plain":
-		return []any{"hello", ""}
+		return []any{"hello", "", "100% done, %d items %s %!"}
 	case "str_html":
 		return []any{"<b>&amp;\"'</b>", "</script><script>alert(1)</script>"}
 	case "str_ctrl":
@@ -82,6 +82,79 @@ func renderReplay(s *Summary, raw json.RawMessage) {
 	}
 	for _, v := range renderValues(c.V) {
 		renderHelper(s, &c, v)
+	}
+	if c.V == "struct" && !c.Preset && c.Status == 200 {
+		renderOdd(s, &c)
+	}
+}
+
+// renderMap: a map type that knows how to write itself as XML (encoding/xml cannot encode plain maps)
+type renderMap map[string]string
+
+func (m renderMap) MarshalXML(e *xml.Encoder, start xml.StartElement) error {
+	start.Name.Local = "m"
+	if err := e.EncodeToken(start); err != nil {
+		return err
+	}
+	for _, k := range []string{"a", "b"} {
+		if err := e.EncodeElement(m[k], xml.StartElement{Name: xml.Name{Local: k}}); err != nil {
+			return err
+		}
+	}
+	return e.EncodeToken(start.End())
+}
+
+// renderOdd: values at the edge of what the encoders take - an untyped nil (never a panic), a map type with its own
+// MarshalXML (encodable, so it is encoded)
+func renderOdd(s *Summary, c *renderCase) {
+	call := func(v any) (w *httptest.ResponseRecorder, errs int, pan any) {
+		r := rux.New()
+		r.GET("/r", func(cx *rux.Context) {
+			switch c.H {
+			case "XML":
+				cx.XML(200, v)
+			case "JSON":
+				cx.JSON(200, v)
+			case "JSONP":
+				cx.JSONP(200, "cb", v)
+			case "render.XML":
+				if err := render.XML(cx.Resp, v); err != nil {
+					errs++
+				}
+			case "render.JSON":
+				if err := render.JSON(cx.Resp, v); err != nil {
+					errs++
+				}
+			}
+			errs += len(cx.Errors)
+		})
+		w = httptest.NewRecorder()
+		func() {
+			defer func() { pan = recover() }()
+			r.ServeHTTP(w, &http.Request{Method: "GET", URL: &url.URL{Path: "/r"}, Header: http.Header{}, Proto: "HTTP/1.1"})
+		}()
+		return
+	}
+	switch c.H {
+	case "XML", "JSON", "JSONP", "render.XML", "render.JSON":
+	default:
+		return
+	}
+	s.Compared++
+	if _, _, pan := call(nil); pan != nil {
+		s.mismatch(map[string]any{"kind": "render", "aspect": "panic", "helper": c.H, "what": fmt.Sprintf("%s with an untyped nil value panicked: %v", c.H, pan)}, c)
+		return
+	}
+	if c.H == "XML" || c.H == "render.XML" {
+		w, errs, pan := call(renderMap{"a": "1", "b": "<2>"})
+		var back struct {
+			A string `xml:"a"`
+			B string `xml:"b"`
+		}
+		if pan != nil || errs != 0 || xml.Unmarshal(w.Body.Bytes(), &back) != nil || back.A != "1" || back.B != "<2>" {
+			s.mismatch(map[string]any{"kind": "render", "aspect": "body", "helper": c.H, "what": fmt.Sprintf(
+				"%s of a map type with its own MarshalXML: body %q errors %d panic %v does not decode back to the value", c.H, w.Body.String(), errs, pan)}, c)
+		}
 	}
 }
 
